@@ -25,5 +25,5 @@ for p in "$@"; do
   sigs=$(echo "$out" | grep -oE "^  \[[^]]+\]" | sort | uniq -c | sort -rn | head -4 | tr '\n' ';')
   if [ $rc -eq 1 ] && [ $n -gt 0 ]; then echo "$p CAUGHT ($n witnesses) $sigs"
   elif [ $rc -eq 0 ]; then echo "$p MISSED"
-  else echo "$p BROKEN rc=$rc: $(echo "$out" | tail -3 | tr '\n' ' ' | cut -c1-300)"; fi
+  else echo "$p BROKEN rc=$rc: $(echo "$out" | grep -m1 -E 'BROKEN CHECK|BUILD FAILED|panic' | cut -c1-400) $(echo "$out" | tail -2 | tr '\n' ' ' | cut -c1-200)"; fi
 done
